@@ -39,7 +39,11 @@ RULE = ("server: per case i (splitmix64(seed,C16,tier,server,i)): 2..7 handlers 
         "Content-Length exact (sometimes with extra bytes behind) / Transfer-Encoding {chunked, 'gzip, chunked', Chunked} with chunks "
         "of 1..20 bytes, upper/lower-case and zero-padded sizes, extensions, trailers, 1/5 malformed (bad hex, bare LF, missing CRLF, "
         "truncated), sometimes with Content-Length too / malformed Content-Length {5x, empty, +2, 0, 00, -0, '2 ', 0x2, abc} / none; "
-        "malformed heads p=1/12; truncated p=1/8; cut like the requests; `eof` p=1/6 per transaction")
+        "malformed heads p=1/12; truncated p=1/8; cut like the requests; `eof` p=1/6 per transaction; half of the cases KEEP the request "
+        "object between their 1..4 transactions (no nng_http_reset); directed: every ordered pair (+ a third) of the framings {chunked, "
+        "Content-Length, Content-Length 0, Content-Type+Content-Length, none} on one connection with and without reset, HEAD then GET, a "
+        "1.0 response then a kept request, kept bodies; writer: request heads (long uri, with/without body) and response heads (redirect "
+        "with a long Location; with and without unread pipelined input; HEAD) of rendered length bufsz-4 .. bufsz+4")
 
 
 def hx(b):
@@ -246,11 +250,12 @@ def gen_response(r, meth):
 
 def gen_client_case(r, idx):
     ops = ["cli"]
-    for t in range(r.range(1, 3)):
+    keep = r.chance(1, 2)      # the application reuses its request object: no nng_http_reset between the transactions
+    for t in range(r.range(1, 4) if keep else r.range(1, 3)):
         meth = r.choice([b"GET"] * 4 + [b"HEAD", b"POST", b"PUT"])
         uri = r.choice([b"/", b"/a/b", b"/x?q=1", b""])
         body = b"req-body" if meth in (b"POST", b"PUT") and r.chance(2, 3) else b""
-        ops.append(f"txn {hx(meth)} {hx(uri)} {hx(body)}")
+        ops.append(f"txn {hx(meth)} {hx(uri)} {hx(body)}" + (" 1" if keep else ""))
         resp = gen_response(r, meth)
         if r.chance(1, 8):
             resp = resp[:r.range(0, len(resp))]
@@ -258,6 +263,71 @@ def gen_client_case(r, idx):
         if r.chance(1, 6):
             ops.append("eof")
     return ops
+
+
+def framed(kind, data, vers=b"HTTP/1.1", status=b"200 OK"):
+    head = vers + b" " + status + b"\r\n"
+    if kind == "chunked":
+        return head + b"Transfer-Encoding: chunked\r\n\r\n" + (b"%x\r\n" % len(data) + data + b"\r\n" if data else b"") + b"0\r\n\r\n"
+    if kind == "length":
+        return head + b"Content-Length: " + str(len(data)).encode() + b"\r\n\r\n" + data
+    if kind == "zero":
+        return head + b"Content-Length: 0\r\nX-Other: 1\r\n\r\n"
+    if kind == "ctype":
+        return head + b"Content-Type: text/plain\r\nContent-Length: " + str(len(data)).encode() + b"\r\n\r\n" + data
+    return head + b"\r\n"                      # "none": no framing header, no body
+
+
+def client_sequences():
+    """every ordered pair (and some triples) of framings on ONE connection, with and without nng_http_reset in between"""
+    cs = []
+    kinds = ["chunked", "length", "zero", "ctype", "none"]
+    for keep in (" 1", ""):
+        for a in kinds:
+            for b in kinds:
+                ops = ["cli", f"txn {hx(b'GET')} {hx(b'/1')} -{keep}", "rx " + hx(framed(a, b"AAAA")),
+                       f"txn {hx(b'GET')} {hx(b'/2')} -{keep}", "rx " + hx(framed(b, b"BBBBBB")),
+                       f"txn {hx(b'GET')} {hx(b'/3')} -{keep}", "rx " + hx(framed(a, b"CC"))]
+                cs.append(ops)
+        # HEAD first (Content-Length without body), then GET; a 1.0 response, then a kept request; a kept body
+        cs.append(["cli", f"txn {hx(b'HEAD')} {hx(b'/h')} -{keep}", "rx " + hx(framed("length", b"")[:-0 or None].replace(b": 0", b": 5")),
+                   f"txn {hx(b'GET')} {hx(b'/g')} -{keep}", "rx " + hx(framed("none", b""))])
+        cs.append(["cli", f"txn {hx(b'GET')} {hx(b'/a')} -{keep}", "rx " + hx(framed("length", b"old", vers=b"HTTP/1.0")),
+                   f"txn {hx(b'GET')} {hx(b'/b')} -{keep}", "rx " + hx(framed("chunked", b"new"))])
+        cs.append(["cli", f"txn {hx(b'POST')} {hx(b'/p')} {hx(b'body-1')}{keep}", "rx " + hx(framed("length", b"r1")),
+                   f"txn {hx(b'POST')} {hx(b'/p')} -{keep}", "rx " + hx(framed("length", b"r2")),
+                   f"txn {hx(b'PUT')} {hx(b'/p')} {hx(b'b3')}{keep}", "rx " + hx(framed("none", b""))])
+        cs.append(["cli", f"txn {hx(b'GET')} {hx(b'/s')} -{keep}", "rx " + hx(framed("length", b"x", status=b"404 Not Found")),
+                   f"txn {hx(b'GET')} {hx(b'/s')} -{keep}", "rx " + hx(b"HTTP/1.1 204 \r\n\r\n")])
+    return cs
+
+
+def bufsz():
+    from .. import extract
+    extract._load_hooks()
+    return extract.consts()["httpBufSize"][0]
+
+
+def long_head_cases():
+    """heads whose rendered length is around the size of the connection buffer (http_prepare: fixed buffer vs heap copy),
+    written through the real nni_http_write_req (client request with a long uri, without and with a body) and
+    nni_http_write_res (redirect answer with a long Location; answers with and without unread input behind the request)"""
+    cs, B = [], bufsz()
+    for d in range(-4, 5):
+        # "GET <uri> HTTP/1.1\r\nHost: h\r\n\r\n" = len(uri) + 26
+        uri = b"/" + b"u" * (B + d - 26 - 1)
+        cs.append(["cli", f"txn {hx(b'GET')} {hx(uri)} -", "rx " + hx(framed("length", b"ok"))])
+        # with "Content-Length: 4\r\n" (19 more)
+        uri2 = b"/" + b"v" * (B + d - 26 - 19 - 1)
+        cs.append(["cli", f"txn {hx(b'POST')} {hx(uri2)} {hx(b'BODY')}", "rx " + hx(framed("none", b""))])
+        # "HTTP/1.1 301 Moved Permanently\r\nLocation: <w>\r\nConnection: close\r\nContent-Type: text/html; charset=UTF-8\r\n
+        #  Content-Length: 385\r\n\r\n" = len(w) + 126
+        w = b"http://o/" + b"w" * (B + d - 126 - 9)
+        tbl = ["srv", hline(0, "redir", b"/old", args=(301, hx(w))), hline(1, "echo", b"/ok"), "conn"]
+        cs.append(tbl + ["rx " + hx(rq(b"GET", b"/old"))])
+        cs.append(tbl + ["rx " + hx(rq(b"GET", b"/old") + rq(b"GET", b"/ok"))])     # unread input: the heap path
+        cs.append(tbl + ["rx " + hx(rq(b"HEAD", b"/old"))])
+    return cs
 
 
 def client_directed():
@@ -426,7 +496,7 @@ def run_part(tier, seed, st, replay=None):
     else:
         n = int(os.environ.get("VERIF_SRV_CASES", 4000 if tier == "quick" else 40000))
         cases = directed() + [gen_case(core.Rng(seed, PROP, tier, SUB, i), i) for i in range(n)]
-        cases += client_directed() + [gen_client_case(core.Rng(seed, PROP, tier, SUB, "cli", i), i) for i in range(n // 3)]
+        cases += client_directed() + client_sequences() + long_head_cases() + [gen_client_case(core.Rng(seed, PROP, tier, SUB, "cli", i), i) for i in range(n // 3)]
         corpus = os.path.join(core.HERE, "corpus", PROP)
         if os.path.isdir(corpus):
             for f in sorted(os.listdir(corpus)):
@@ -497,8 +567,10 @@ def run_part(tier, seed, st, replay=None):
             continue
         seen.add(sig)
         viol.append((f"server-spec-{mm['case']}",
-                     {"kind": "the HTTP server layer differs from its specification (routing to the most specific handler / request "
-                              "framing / persistence / well-formed answers; Spec/HttpServer.lean)", "sub": SUB, "ops": ops,
+                     {"kind": ("the HTTP client transaction differs from its specification (the request written is ONE well-formed head "
+                               "+ body; the result depends on this response's bytes alone; Spec/HttpClient.lean)" if ops and ops[0] == "cli"
+                               else "the HTTP server layer differs from its specification (routing to the most specific handler / request "
+                                    "framing / persistence / well-formed answers that parse back; Spec/HttpServer.lean)"), "sub": SUB, "ops": ops,
                       "readable": [readable(o) for o in ops][:20],
                       "impl": [readable_out(l) for l in r1["impl"].lines][-4:], "spec": [readable_out(l) for l in r1["spec"].lines][-4:],
                       "first_difference": {"impl": sig[0], "spec": sig[1]}}, False))
